@@ -180,7 +180,9 @@ def lean_stage(mod, tier, log):
         if res["grep"]:
             res["failed"].append(dict(name="(source grep)", lean_message="; ".join(res["grep"][:10])))
         if tier == "thorough" and os.environ.get("VERIF_NO_LEANCHECKER") != "1":
-            rc, out = sh(["lake", "env", "leanchecker", mod.LEAN], cwd=LEAN_DIR, timeout=3000)
+            # the independent re-checker replays the compiled declarations of the property module, of the modules with its further
+            # theorems (closed-form / quadrature / all-variant files, the module about generated glue) and of everything they import
+            rc, out = sh(["lake", "env", "leanchecker", mod.LEAN] + extra_mods, cwd=LEAN_DIR, timeout=3000)
             res["leanchecker"] = "ok" if rc == 0 else out[-500:]
             if rc != 0:
                 res["failed"].append(dict(name="(leanchecker)", lean_message=out[-500:]))
